@@ -266,10 +266,10 @@ impl Check for C12 {
         tier.pick(1500, 100_000)
     }
     fn rule(&self) -> String {
-        "case = a writer replica in a multi-replica history calls save() once and save_incremental()/save_after(heads) at arbitrary later points (interleaved with local edits and merges of other replicas' changes); checked: (a) load(save ‖ inc1 ‖ … ‖ incn) equals the writer (heads, change set, OBS snapshot, missing deps); (b) a reader loaded from the save taken at point p and fed every later piece through load_incremental — in written order, in shuffled order, and with duplicates — equals the writer; (c) feeding all pieces again changes nothing (snapshot, heads, H3). Non-trivial = ≥2 incremental pieces and a shuffled or duplicated feeding order; distinct by (pieces hash, order hash).".into()
+        "case = a writer replica in a multi-replica history calls save() once and save_incremental()/save_after(heads) at arbitrary later points (interleaved with local edits and merges of other replicas' changes); checked: (a) load(save ‖ inc1 ‖ … ‖ incn) equals the writer (heads, change set, OBS snapshot, missing deps); (b) a reader loaded from the save taken at point p and fed every later piece through load_incremental — in written order, in shuffled order, and with duplicates — equals the writer; (c) feeding all pieces again changes nothing (snapshot, heads, H3); (d) a reader that starts empty and is fed the save itself and all pieces through load_incremental, in written and in shuffled order (so that later pieces wait in the queue until the save arrives), equals the writer. Non-trivial = ≥2 incremental pieces and a shuffled or duplicated feeding order; distinct by (pieces hash, order hash).".into()
     }
     fn required_counters(&self) -> Vec<&'static str> {
-        vec!["concat_loads", "incremental_feeds", "shuffled_feeds", "refeeds", "save_after_pieces"]
+        vec!["concat_loads", "incremental_feeds", "shuffled_feeds", "refeeds", "save_after_pieces", "empty_reader_feeds", "empty_reader_fed_save_late"]
     }
     fn run_case(&self, cx: &mut Ctx, _case: u64, rng: &mut Rng) {
         let enc = enc_for(rng);
@@ -388,6 +388,32 @@ impl Check for C12 {
             }
             if pieces.len() >= 2 && mode > 0 {
                 cx.nontrivial(fnv(&cat) ^ fnv(format!("{order:?}").as_bytes()));
+            }
+        }
+        // (d) a reader that starts empty (the writer before its first change) and receives the save
+        // itself and every later piece through load_incremental, in written and in shuffled order
+        for mode in 0..2 {
+            let mut all: Vec<&Vec<u8>> = vec![&base];
+            all.extend(pieces.iter());
+            let mut order: Vec<usize> = (0..all.len()).collect();
+            if mode == 1 {
+                rng.shuffle(&mut order);
+            }
+            let mut reader = fresh(enc, 64 + mode);
+            cx.count("empty_reader_feeds");
+            for &i in &order {
+                if let Err(e) = reader.load_incremental(all[i]) {
+                    cx.violation("load-incremental-failed|empty-reader", format!("an empty reader fed the save and the incremental pieces (order {order:?}, 0 = the save) failed at piece {i}: {e}"), json!({"order": order, "log": tail(&log, 40)}));
+                    return;
+                }
+            }
+            if let Some(d) = docs_differ(&mut writer, &mut reader) {
+                cx.violation(&format!("reader-differs|empty-reader|mode{mode}"), format!("an empty reader fed the save and {} pieces through load_incremental (order {order:?}, 0 = the save) differs from the writer: {d}", pieces.len()), json!({"log": tail(&log, 40)}));
+                return;
+            }
+            if mode == 1 && order.first() != Some(&0) {
+                cx.count("empty_reader_fed_save_late");
+                cx.nontrivial(fnv(&cat) ^ fnv(format!("empty{order:?}").as_bytes()));
             }
         }
         cx.add("pieces", pieces.len() as u64);
